@@ -16,6 +16,27 @@ from .types import NoneType
 from .world import Unsupported
 
 _parse_cache: dict[str, ast.AST] = {}
+_NO = object()
+
+
+def concrete_of(v):
+    """python value of a Val whose term is a literal (None/bool/int/str), else _NO"""
+    t = z3.simplify(v.t)
+    if t.sort() != V:
+        return _NO
+    if z3.is_app(t):
+        nm = t.decl().name()
+        if nm == "none":
+            return None
+        if t.num_args() == 1:
+            a = t.arg(0)
+            if nm == "b" and (z3.is_true(a) or z3.is_false(a)):
+                return z3.is_true(a)
+            if nm == "i" and z3.is_int_value(a):
+                return a.as_long()
+            if nm == "s" and z3.is_string_value(a):
+                return a.as_string()
+    return _NO
 
 
 def parse_spec(src: str) -> ast.AST:
@@ -111,6 +132,10 @@ class SpecCtx:
             sf = ex.w.specfuns.get(fn)
             if sf is not None and fn not in self.names:
                 args = [self.ev(a, st) for a in node.args]
+                if sf.pyfn is not None and sf.concrete_ok:
+                    conc = [concrete_of(x) for x in args]
+                    if all(c is not _NO for c in conc):
+                        return ex.w.const(sf.pyfn(*conc))
                 return sf.z3fn(ex, st, args)
         # generic: reuse the executor, but route sub-expressions through us for the spec forms
         return self._generic(node, st)
